@@ -3,7 +3,7 @@ import Aiorpcx.C15.Model
 /-! Line-protocol driver for the C15 model.
     in : `<fixed 0|1> <maxDelay> ; <event> ; ...`  events: `S s m flags` `B s m flags` `P`
          `R flags` `L` `A dt` `C m` `G 0|1` `X flags act,act,..` with act = `S.s.m` | `B.s.m` |
-         `P` | `R` (performed back to back, the loop runs only afterwards)   (flags = string of 0/1 or `-`; `B` = a big message:
+         `P` | `R` (performed back to back, the loop runs only afterwards)   (flags = string of 0/1 or `-`; `B` = a big message, `N` = a notification and `K` = a batch of notifications through the public API:
          the model abstracts the size, so it is the same event as `S`)
     out: per event `obs=.. cs=.. cl=.. lo=.. rd=.. nb=.. t=..`, separated by ` ; ` -/
 open Aiorpcx Aiorpcx.C15
@@ -15,6 +15,8 @@ def parseAct (s : String) : Option Act :=
   match s.splitOn "." with
   | ["S", a, b] => do pure (.send (← a.toNat?) (← b.toNat?))
   | ["B", a, b] => do pure (.send (← a.toNat?) (← b.toNat?))
+  | ["N", a, b] => do pure (.send (← a.toNat?) (← b.toNat?))
+  | ["K", a, b] => do pure (.send (← a.toNat?) (← b.toNat?))
   | ["P"] => some .pause
   | ["R"] => some .resume
   | _ => none
@@ -23,6 +25,8 @@ def parseEvent (s : String) : Option Event :=
   match (s.splitOn " ").filter (· ≠ "") with
   | ["S", a, b, f] => do pure (.send (← a.toNat?) (← b.toNat?) (parseFlags f))
   | ["B", a, b, f] => do pure (.send (← a.toNat?) (← b.toNat?) (parseFlags f))
+  | ["N", a, b, f] => do pure (.send (← a.toNat?) (← b.toNat?) (parseFlags f))
+  | ["K", a, b, f] => do pure (.send (← a.toNat?) (← b.toNat?) (parseFlags f))
   | ["C", m] => do pure (.cancel (← m.toNat?))
   | ["G", "0"] => some (.gclose false)
   | ["G", "1"] => some (.gclose true)
